@@ -245,17 +245,27 @@ func checkMain(args []string) int {
 		procs = append(procs, proc{cmd, out})
 	}
 	var outs []*engine.BatchOut
+	workerFailures := 0
 	for _, p := range procs {
 		if err := p.cmd.Wait(); err != nil {
+			// A worker that gave up (a call into the code under check never
+			// returned: watchdog) or died loses its share of the batch; what the
+			// other workers found is still reported. Without any violation the
+			// batch ends with status 2.
 			fmt.Fprintf(os.Stderr, "worker failed: %v\n", err)
-			return 2
+			workerFailures++
+			continue
 		}
 		bs, err := readWorker(p.out)
 		if err != nil {
 			fmt.Fprintf(os.Stderr, "worker output: %v\n", err)
-			return 2
+			workerFailures++
+			continue
 		}
 		outs = append(outs, bs...)
+	}
+	if len(outs) == 0 {
+		return 2
 	}
 	agg := merge(outs)
 	if len(agg.ToolErrors) > 0 {
@@ -315,7 +325,7 @@ func checkMain(args []string) int {
 		return 2
 	}
 	fmt.Printf("done %s: %d runs, %d actions, %.0f sim ticks, %d non-trivial, foreign=%v, %.1fs\n", prop, agg.Runs, agg.Actions, float64(agg.Ticks), agg.NonTrivial, agg.Foreign, wall)
-	if exit == 0 && len(agg.ToolErrors) > 0 {
+	if exit == 0 && (len(agg.ToolErrors) > 0 || workerFailures > 0) {
 		return 2
 	}
 	return exit
